@@ -1113,6 +1113,14 @@ def replay(payload):
     print(json.dumps(payload, indent=1)[:2000])
     Time = _imp()
     c = payload.get("replay", {})
+    if "env" in c and "item" in c:
+        from . import ambient
+        scale, d, us, what = c["item"]
+        ref, err, others = ambient.run("harness.c02:ambient_slice", {"scales": [scale], "epochs": [[d, us]]}, [("replay", c["env"])])
+        for (k, v), (k2, v2) in zip(ref or [], (others[0][2] or [])):
+            if v != v2:
+                print(f"{k}: reference {v!r}  with {c['env']}: {v2!r}")
+        return 0
     if "jd1" in c and "scale" in c:
         t = Time(c["jd1"], val2=c["jd2"], fmt="jd", scale=c["scale"])
         print("jd1, jd2 =", repr(float(t.jd1)), repr(float(t.jd2)), "jd_int, jd_frac =", repr(float(t.jd_int)), repr(float(t.jd_frac)))
